@@ -56,6 +56,8 @@ Judge ==
              /\ \A k \in EligibleOf(XI, XF) : \E j \in 1..Len(Obs.tok.xkept) : Close(Obs.tok.xkept[j], TX[k])
              /\ ((want \in {"LDN", "UDN"} /\ Obs.tie = 0) => Obs.tok.primary_lower = (IF want = "LDN" THEN 1 ELSE 0)))
   /\ Clause("LegsInnerOuterByRadius", Obs.tok.outcome # "ok" \/ \A k \in 1..Len(Obs.tok.legs) : Obs.tok.legs[k].inner <= Obs.tok.legs[k].outer)      \* (equal when both legs end on the same vertical wall: either labelling)
+  \* the legs called lower hang below the magnetic axis, those called upper above it (their X-point end, relative to the O-point, wherever Z = 0 is)
+  /\ Clause("LegsLowerUpperByAxis", Obs.tok.outcome # "ok" \/ \A k \in 1..Len(Obs.tok.legs) : (Obs.tok.legs[k].which = "lower") = (Obs.tok.legs[k].below = 1))
   /\ done' = TRUE /\ UNCHANGED <<tid, vars>>
 
 TInit == /\ tid \in 1..Len(JT) /\ done = FALSE
